@@ -224,7 +224,7 @@ Proof.
     destruct (th_running h) eqn:Hr; [discriminate|]. unfold finished in Hst. sst. rewrite Hsh in Hst. injection Hst as <- <-. sst.
     pose proof (work_tset_some t h (mkThr None [] false (th_exited h)) _ Ht) as Hw.
     unfold thr_work in Hw. rewrite Hc, Hq, Hr in Hw. cbn [th_client th_queue th_running length] in Hw. lia.
-  - destruct (in_unreg s c); [discriminate|]. destruct (lmem c (s_cl s)); [|discriminate].
+  - destruct (in_unreg s c); [discriminate|]. destruct (lmem c (s_cl s) || sd_done (s_sd s)); [|discriminate].
     unfold unreg_begin in Hst. destruct (outstanding s c); injection Hst as <- <-; sst; lia.
   - destruct (tget c (s_unreg s)) as [[[|]|]|]; try discriminate. injection Hst as <- <-. sst. lia.
   - destruct (tget c (s_unreg s)) as [[|]|]; try discriminate. injection Hst as <- <-. unfold unreg_end; sst. lia.
